@@ -49,8 +49,8 @@ def gen_case(rng, tier):
         prof["w_pure"] = max(prof["w_pure"], 3)
     prof["next_iv"] = rng.choice([0, 0, 0.3])  # loop bodies that compute %i + %step themselves, also inside nested regions
     prof["partial"] = rng.choice([0, 0, 0, 0.3])  # setups that only write some of the fields
-    prof["state_loops"] = rng.choice([0, 0, 0.5])  # hand-threaded loops that already carry an accelerator's state ...
-    prof["head_launch"] = rng.choice([0, 0.5])  # ... and first launch the configuration they were entered with
+    prof["state_loops"] = rng.choice([0, 0.5, 0.5])  # hand-threaded loops that already carry an accelerator's state ...
+    prof["head_launch"] = rng.choice([0, 0.5, 0.7])  # ... and first launch the configuration they were entered with (plain or guarded)
     ast = G.AccfgGen(rng, prof).program()
     envs = gen_envs(rng, K_ENVS[tier])
     for e in envs[1:]:
